@@ -610,6 +610,13 @@ def call_builtin_method(it, obj, name, args, kwargs):
     from .strings import XStr
     if isinstance(obj, XStr):
         return obj.method(it, name, args, kwargs)
+    from . import ext as _ext
+    if isinstance(obj, _ext.SExt):
+        return _ext.call_method(it, obj, name, args, kwargs)
+    if isinstance(obj, _ext.SBytes):
+        if name == 'decode':
+            return _ext.SDecoded(obj)
+        raise EngineError(f'bytes.{name}')
     if isinstance(obj, SList):
         if name == 'append':
             obj.items.append(args[0])
